@@ -358,15 +358,21 @@ impl<'xml> DeserializeContent<'xml> for String {
     }
 }
 
+/// Parses the whole text as a number (`atoi` accepts any numeric prefix)
+fn parse_integer<T: std::str::FromStr>(t: &BytesText<'_>) -> DeResult<T> {
+    let s = t.unescape().map_err(invalid_xml)?;
+    s.trim().parse().map_err(|_| DeError::InvalidContent)
+}
+
 impl<'xml> DeserializeContent<'xml> for i32 {
     fn deserialize_content(d: &mut Deserializer<'xml>) -> DeResult<Self> {
-        d.text(|t| atoi::atoi::<Self>(t.as_ref()).ok_or(DeError::InvalidContent))
+        d.text(|t| parse_integer(&t))
     }
 }
 
 impl<'xml> DeserializeContent<'xml> for i64 {
     fn deserialize_content(d: &mut Deserializer<'xml>) -> DeResult<Self> {
-        d.text(|t| atoi::atoi::<Self>(t.as_ref()).ok_or(DeError::InvalidContent))
+        d.text(|t| parse_integer(&t))
     }
 }
 
